@@ -153,7 +153,7 @@ Proof.
   unfold kinds_ok. induction H2 as [|n piece ns pieces Hp HF IH]; constructor; auto.
   destruct n as [t|name rep|rep|k|k suffix]; simpl in *; auto.
   - destruct Hp as [Hp1 Hp2]. exists piece. auto.
-  - destruct Hp as [[Hp _]|[Hp [b [Hb Hpiece]]]]; [left; auto|].
+  - destruct Hp as [[Hp _]|[Hp [b [Hb [Hnl Hpiece]]]]]; [left; auto|].
     right. exists b. subst piece. auto.
 Qed.
 
